@@ -826,3 +826,88 @@ Section Inv.
     now rewrite P.
   Qed.
 End Inv.
+
+(* ------------------------------------------------------------------ *)
+(* concrete executions (3 nodes 0,1,2; vote_after = 1, node_fail_after = 1) *)
+
+Definition cfg3 : config := mkConfig [0; 1; 2] 1 1.
+
+(* 0 is elected in term 1, loses contact with 2, recomputes its ring as {0,1};
+   1 receives a check that still carries the old signature, then one with the
+   new signature *)
+Definition evs_lag : list event :=
+  [Tick 0 [] []; DeliverReq 0 1 1; DeliverRep 0 1 1;
+   Tick 0 [1] [1]; Tick 0 [1] [1]; DeliverHealth 0].
+
+Definition adopts_ring_statement (cfg : config) : Prop :=
+  forall evs idx h,
+    let s := run cfg evs in
+    nth_error (hnet s) idx = Some h ->
+    electing (loc s (h_to h)) = None -> term (loc s (h_to h)) <= h_term h ->
+    sig_of (ring_nodes (loc (deliver_health s idx) (h_to h))) = h_sig h.
+
+(* the first accepted check with a new signature only raises rehashSkipped *)
+Lemma adopts_ring_refuted : ~ adopts_ring_statement cfg3.
+Proof.
+  intros H. specialize (H evs_lag 0 (mkH 1 0 1 [0; 1] [0; 1])).
+  vm_compute in H. specialize (H eq_refl eq_refl (le_n 1)). discriminate H.
+Qed.
+
+(* then 1 adopts {0,1}; 0 falls silent, 1 is elected in term 2 with the vote of 2
+   (which is back).  The new leader 1 advertises the signature of its ring {0,1}
+   together with ITS OWN activeNodes, which is still the list from failoverInit
+   {0,2,1}: followers never learn a node list that matches the signature. *)
+Definition evs_new_leader : list event :=
+  evs_lag ++ [DeliverHealth 0; Tick 0 [1] [1]; DeliverHealth 0;
+              Tick 1 [] []; DeliverReq 1 2 2; DeliverRep 1 2 2].
+Definition health_round : list event := [Tick 1 [0; 2] [0; 2]; DeliverHealth 0; DeliverHealth 0].
+Fixpoint rounds (k : nat) : list event := match k with O => [] | S k' => health_round ++ rounds k' end.
+
+Definition leader_list_matches_ring_statement (cfg : config) : Prop :=
+  forall evs n,
+    let s := run cfg evs in
+    leader (loc s n) = Some n ->
+    sig_of (active_nodes (loc s n)) = sig_of (ring_nodes (loc s n)).
+
+Lemma leader_list_matches_ring_refuted : ~ leader_list_matches_ring_statement cfg3.
+Proof.
+  intros H. specialize (H evs_new_leader 1). vm_compute in H. specialize (H eq_refl). discriminate H.
+Qed.
+
+(* all three nodes are up, every check is delivered and answered, everybody has
+   accepted leader 1 in term 2, and still node 2 keeps a ring different from the
+   leader's: after every one of the first 40 rounds of health checks *)
+Definition diverged (s : state) : bool :=
+  is_leader (loc s 1) 1 && is_leader (loc s 0) 1 && is_leader (loc s 2) 1 &&
+  (term (loc s 0) =? 2) && (term (loc s 1) =? 2) && (term (loc s 2) =? 2) &&
+  (fail_count (loc s 1) 0 =? 0) && (fail_count (loc s 1) 2 =? 0) &&
+  list_eqb (sig_of (ring_nodes (loc s 0))) [0; 1] &&
+  list_eqb (sig_of (ring_nodes (loc s 1))) [0; 1] &&
+  list_eqb (sig_of (ring_nodes (loc s 2))) [0; 1; 2].
+
+Lemma ring_divergence_persists :
+  forall k, k <= 40 -> diverged (run cfg3 (evs_new_leader ++ rounds (S k))) = true.
+Proof.
+  assert (H : forallb (fun k => diverged (run cfg3 (evs_new_leader ++ rounds (S k)))) (seq 0 41) = true)
+    by (vm_compute; reflexivity).
+  intros k Hk. rewrite forallb_forall in H. apply H. apply in_seq. lia.
+Qed.
+
+(* satisfiability: a leader does get elected, and a partitioned leader answers 502 *)
+Example leader_elected :
+  let s := run cfg3 [Tick 0 [] []; DeliverReq 0 1 1; DeliverRep 0 1 1] in
+  leader (loc s 0) = Some 0 /\ term (loc s 0) = 1 /\ votes s 1 1 = Some 0 /\ votes s 1 0 = Some 0.
+Proof. vm_compute. auto. Qed.
+
+Example partitioned_leader_502 :
+  let s := run cfg3 [Tick 0 [] []; DeliverReq 0 1 1; DeliverRep 0 1 1; Tick 0 [] []] in
+  active_nodes (loc s 0) = [0] /\ dispatch cfg3 s 0 = Err502.
+Proof. vm_compute. auto. Qed.
+
+Lemma grant_run cfg : NoDup (cfg_nodes cfg) -> forall evs c t m rt,
+  let s := run cfg evs in
+  rpcs s c t m = ReqFlying ->
+  rpcs (deliver_req cfg s c t m) c t m = RepFlying (Granted rt) ->
+  votes s t m = None /\ votes (deliver_req cfg s c t m) t m = Some c /\ rt = t /\
+  term (loc s m) < t /\ term (loc (deliver_req cfg s c t m) m) = t.
+Proof. intros ND evs c t m rt s. apply grant_spec. now apply inv_run. Qed.
